@@ -141,22 +141,26 @@ Lemma fbs_ids_incl : forall c F x, In x (ids (filter_by_set c F)) -> In x (ids c
 Proof. intros c F x H. apply fbs_ids_In in H. tauto. Qed.
 
 (* ---------- the clause loop ---------- *)
-Lemma lin_cls_spec : forall (L : stmt -> ctx -> N -> stmt * N) mk (Q : clause -> stmt -> Prop) cls m,
+Lemma lin_cls_spec : forall (L : stmt -> ctx -> N -> stmt * N) mk (Q : clause -> stmt -> N -> Prop) cls m,
+  (forall cl b a a', Q cl b a -> a <= a' -> Q cl b a') ->
   (forall cl m0, In cl cls -> m <= m0 ->
-     Q cl (fst (L (cl_body cl) (mk (cl_ctx cl)) m0)) /\ m0 <= snd (L (cl_body cl) (mk (cl_ctx cl)) m0)) ->
+     Q cl (fst (L (cl_body cl) (mk (cl_ctx cl)) m0)) (snd (L (cl_body cl) (mk (cl_ctx cl)) m0)) /\
+     m0 <= snd (L (cl_body cl) (mk (cl_ctx cl)) m0)) ->
   m <= snd (lin_cls L mk cls m) /\
-  Forall2 (fun cl cl' => cl_xtor cl' = cl_xtor cl /\ cl_ctx cl' = cl_ctx cl /\ Q cl (cl_body cl'))
+  Forall2 (fun cl cl' => cl_xtor cl' = cl_xtor cl /\ cl_ctx cl' = cl_ctx cl /\
+                         Q cl (cl_body cl') (snd (lin_cls L mk cls m)))
           cls (fst (lin_cls L mk cls m)).
 Proof.
-  intros L mk Q cls; induction cls as [|[[x cc] body] r IH]; intros m H; simpl.
+  intros L mk Q cls; induction cls as [|[[x cc] body] r IH]; intros m Hmono H; simpl.
   - split; [lia|constructor].
   - destruct (H (x, cc, body) m (or_introl eq_refl)) as [H1 H2]; [lia|].
     unfold cl_body, cl_ctx in H1, H2; simpl in H1, H2.
     destruct (L body (mk cc) m) as [b' m'] eqn:E. simpl in *.
-    destruct (IH m') as [H3 H4].
+    destruct (IH m' Hmono) as [H3 H4].
     { intros cl m0 Hcl Hm0. apply H; auto. lia. }
     destruct (lin_cls L mk r m') as [r' m''] eqn:E'. simpl in *.
     split; [lia|]. constructor; auto.
+    repeat split; auto. eapply Hmono; eauto.
 Qed.
 Lemma cls_sig_F2 : forall (Q : clause -> stmt -> Prop) cls cls' xs,
   Forall2 (fun cl cl' => cl_xtor cl' = cl_xtor cl /\ cl_ctx cl' = cl_ctx cl /\ Q cl (cl_body cl')) cls cls' ->
@@ -375,81 +379,146 @@ Qed.
 
 Ltac fin := repeat (apply andb_true_iff; split); try assumption; try (apply nodupb_NoDup; assumption).
 
+(* ---------- binders of the output ---------- *)
+Fixpoint binders_ns_cls (cls : list clause) : list N :=
+  match cls with
+  | [] => []
+  | c :: r => ids (cl_ctx c) ++ binders_ns (cl_body c) ++ binders_ns_cls r
+  end.
+Lemma binders_ns_switch : forall v t cls, binders_ns (Switch v t cls) = binders_ns_cls cls.
+Proof. intros; simpl. induction cls as [|[[x cc] b] r IH]; simpl; auto; try (rewrite IH; auto). Qed.
+Lemma binders_ns_create : forall v t e cls next,
+  binders_ns (Create v t e cls next) = idn v :: binders_ns_cls cls ++ binders_ns next.
+Proof.
+  intros; simpl. f_equal. f_equal. induction cls as [|[[x cc] b] r IH]; simpl; auto; try (rewrite IH; auto).
+Qed.
+Lemma binders_subst : forall (newc : ctx) (olds : list ident) body, length newc = length olds ->
+  binders (Substitute (combine newc olds) body) = ids newc ++ binders body.
+Proof.
+  intros newc olds body H. simpl. f_equal.
+  rewrite <- (map_map fst (fun b => idn (bvar b))). rewrite combine_map_fst; auto.
+Qed.
+Lemma bns_cls_F2 : forall (Q : clause -> stmt -> Prop) cls cls',
+  Forall2 (fun cl cl' => cl_xtor cl' = cl_xtor cl /\ cl_ctx cl' = cl_ctx cl /\ Q cl (cl_body cl')) cls cls' ->
+  (forall cl b, Q cl b -> binders_ns b = binders (cl_body cl)) ->
+  binders_ns_cls cls' = binders_cls cls.
+Proof.
+  intros Q cls cls' H HQ; induction H as [|cl cl' cls cls' [H1 [H2 H3]] H IH]; simpl; auto.
+  rewrite H2, (HQ _ _ H3), IH. auto.
+Qed.
+Lemma bound_cls_F2 : forall (Q : clause -> stmt -> Prop) cls cls' a,
+  Forall2 (fun cl cl' => cl_xtor cl' = cl_xtor cl /\ cl_ctx cl' = cl_ctx cl /\ Q cl (cl_body cl')) cls cls' ->
+  (forall cl b, Q cl b -> forall x, In x (binders b) -> x <= a) ->
+  (forall x, In x (binders_cls cls) -> x <= a) ->
+  forall x, In x (binders_cls cls') -> x <= a.
+Proof.
+  intros Q cls cls' a H HQ; induction H as [|cl cl' cls cls' [H1 [H2 H3]] H IH]; simpl; intros Hb x Hx; [tauto|].
+  apply in_app_or in Hx. destruct Hx as [Hx|Hx].
+  - apply Hb. rewrite H2 in Hx. apply in_or_app; auto.
+  - apply in_app_or in Hx. destruct Hx as [Hx|Hx].
+    + eapply HQ; eauto.
+    + apply IH; auto. intros y Hy. apply Hb. apply in_or_app; right. apply in_or_app; auto.
+Qed.
+
+(* ---------- what is shown of one call of `lin` ---------- *)
+Definition post (S : sigs) (c : ctx) (s : stmt) (m : N) (r : stmt * N) : Prop :=
+  lin_check S c (fst r) = true /\ m <= snd r /\
+  binders_ns (fst r) = binders s /\ (forall x, In x (binders (fst r)) -> x <= snd r).
+
+Lemma post_wrap : forall S c s m (newc oldc : ctx) body m',
+  lin_check S c (Substitute (combine newc (vars oldc)) body) = true -> m <= m' ->
+  length newc = length oldc -> binders_ns body = binders s ->
+  (forall x, In x (ids newc) -> x <= m') -> (forall x, In x (binders body) -> x <= m') ->
+  post S c s m (Substitute (combine newc (vars oldc)) body, m').
+Proof.
+  intros S c s m newc oldc body m' H1 H2 H3 H4 H5 H6. unfold post. cbn [fst snd].
+  split; auto. split; auto. split; auto.
+  rewrite binders_subst by (rewrite vars_length; auto).
+  intros x Hx. apply in_app_or in Hx. destruct Hx; auto.
+Qed.
+
 Definition good (S : sigs) (f : nat) : Prop :=
   forall s c m, (stmt_size s <= f)%nat -> ax_check S c s = true -> inv c s m ->
-    lin_check S c (fst (lin f s c m)) = true /\ m <= snd (lin f s c m).
+    post S c s m (lin f s c m).
 
 Section Cases.
   Variable S : sigs.
   Variable f : nat.
   Hypothesis IH : good S f.
+  Notation Sf := (Datatypes.S f).
 
   Lemma case_exit : forall v c m,
-    ax_check S c (Exit v) = true -> inv c (Exit v) m ->
-    lin_check S c (fst (lin (Datatypes.S f) (Exit v) c m)) = true /\ m <= snd (lin (Datatypes.S f) (Exit v) c m).
+    ax_check S c (Exit v) = true -> inv c (Exit v) m -> post S c (Exit v) m (lin Sf (Exit v) c m).
   Proof.
-    intros v c m Hax [I1 _]. rewrite lin_exit. simpl in *. split; [|lia]. fin.
+    intros v c m Hax [I1 _]. rewrite lin_exit. unfold post. simpl in *.
+    split; [fin|]. split; [lia|]. split; auto. tauto.
   Qed.
 
   Lemma case_ifc : forall so a b t e c m,
-    (stmt_size (IfC so a b t e) <= Datatypes.S f)%nat ->
+    (stmt_size (IfC so a b t e) <= Sf)%nat ->
     ax_check S c (IfC so a b t e) = true -> inv c (IfC so a b t e) m ->
-    lin_check S c (fst (lin (Datatypes.S f) (IfC so a b t e) c m)) = true /\
-    m <= snd (lin (Datatypes.S f) (IfC so a b t e) c m).
+    post S c (IfC so a b t e) m (lin Sf (IfC so a b t e) c m).
   Proof.
     intros so a b t e c m Hsz Hax Hinv. rewrite lin_ifc. simpl in Hsz, Hax.
     assert (I1 : NoDup (ids c)) by apply Hinv.
     apply andb_true_iff in Hax. destruct Hax as [Hax Hae].
     apply andb_true_iff in Hax. destruct Hax as [Hax Hat].
     apply andb_true_iff in Hax. destruct Hax as [Ha Hb].
-    destruct (IH t c m) as [T1 T2]; [lia|auto| |].
+    destruct (IH t c m) as [T1 [T2 [T3 T4]]]; [lia|auto| |].
     { apply inv_gen with (c := c) (s := IfC so a b t e) (m := m) (pre := []) (post := binders e);
         [exact Hinv|lia|auto|reflexivity|auto]. }
-    destruct (lin f t c m) as [t' m1] eqn:Et. simpl in T1, T2.
-    destruct (IH e c m1) as [E1 E2]; [lia|auto| |].
+    destruct (lin f t c m) as [t' m1] eqn:Et. cbn [fst snd] in *.
+    destruct (IH e c m1) as [E1 [E2 [E3 E4]]]; [lia|auto| |].
     { apply inv_gen with (c := c) (s := IfC so a b t e) (m := m) (pre := binders t) (post := []);
         [exact Hinv|lia|auto|simpl; rewrite app_nil_r; auto|auto]. }
-    destruct (lin f e c m1) as [e' m2] eqn:Ee. simpl in E1, E2. simpl.
-    split; [|lia]. fin.
+    destruct (lin f e c m1) as [e' m2] eqn:Ee. cbn [fst snd] in *.
+    unfold post. cbn [fst snd]. split; [simpl; fin|]. split; [lia|]. split.
+    - simpl. rewrite T3, E3. auto.
+    - simpl. intros x Hx. apply in_app_or in Hx. destruct Hx as [Hx|Hx]; auto.
+      apply T4 in Hx. lia.
   Qed.
 
   Lemma case_print : forall nl v next c m,
-    (stmt_size (PrintI64 nl v next) <= Datatypes.S f)%nat ->
+    (stmt_size (PrintI64 nl v next) <= Sf)%nat ->
     ax_check S c (PrintI64 nl v next) = true -> inv c (PrintI64 nl v next) m ->
-    lin_check S c (fst (lin (Datatypes.S f) (PrintI64 nl v next) c m)) = true /\
-    m <= snd (lin (Datatypes.S f) (PrintI64 nl v next) c m).
+    post S c (PrintI64 nl v next) m (lin Sf (PrintI64 nl v next) c m).
   Proof.
     intros nl v next c m Hsz Hax Hinv. rewrite lin_print. cbv zeta. simpl in Hsz, Hax.
     assert (I1 : NoDup (ids c)) by apply Hinv.
+    assert (I4 : forall x, In x (ids c) -> x <= m) by apply Hinv.
     apply andb_true_iff in Hax. destruct Hax as [Hv Hax].
     set (F := add (idn v) (fv next)). set (nc := filter_by_set c F).
     assert (Hnc : NoDup (ids nc)) by (apply fbs_NoDup; auto).
     assert (Hax' : ax_check S nc next = true).
     { rewrite <- Hax. symmetry. apply ax_check_ext. intros x Hx.
       apply lookup_fbs_sub; auto. apply add_In; auto. }
-    destruct (IH next nc m) as [N1 N2]; [lia|auto| |].
+    destruct (IH next nc m) as [N1 [N2 [N3 N4]]]; [lia|auto| |].
     { apply inv_gen with (c := c) (s := PrintI64 nl v next) (m := m) (pre := []) (post := []);
         [exact Hinv|lia|auto|simpl; rewrite app_nil_r; auto|].
       intros x Hx. left. eapply fbs_ids_incl; eauto. }
-    destruct (lin f next nc m) as [n' m1] eqn:En. simpl in N1, N2.
+    destruct (lin f next nc m) as [n' m1] eqn:En. cbn [fst snd] in *.
     assert (Hv' : has_ext nc v = true).
     { unfold has_ext in *. rewrite <- Hv. apply has_ext_lookup. symmetry. apply lookup_fbs_sub; auto.
       apply add_In; auto. }
-    destruct (ctx_eqb c nc) eqn:Eq; cbn [fst snd]; (split; [|lia]).
-    - apply ctx_eqb_eq in Eq. rewrite <- Eq in *. simpl. fin.
-    - apply self_subst_ok; auto.
-      + intros b Hb. apply fbs_In in Hb. tauto.
-      + simpl. fin.
+    destruct (ctx_eqb c nc) eqn:Eq.
+    - unfold post. cbn [fst snd]. split; [|split; [lia|split; auto]].
+      apply ctx_eqb_eq in Eq. rewrite <- Eq in *. simpl. fin.
+    - apply post_wrap; auto.
+      + apply self_subst_ok; auto.
+        * intros b Hb. apply fbs_In in Hb. tauto.
+        * simpl. fin.
+      + intros x Hx. apply fbs_ids_incl in Hx. apply I4 in Hx. lia.
   Qed.
 
   Lemma case_literal : forall n v next c m,
-    (stmt_size (Literal n v next) <= Datatypes.S f)%nat ->
+    (stmt_size (Literal n v next) <= Sf)%nat ->
     ax_check S c (Literal n v next) = true -> inv c (Literal n v next) m ->
-    lin_check S c (fst (lin (Datatypes.S f) (Literal n v next) c m)) = true /\
-    m <= snd (lin (Datatypes.S f) (Literal n v next) c m).
+    post S c (Literal n v next) m (lin Sf (Literal n v next) c m).
   Proof.
     intros n v next c m Hsz Hax Hinv. rewrite lin_literal. cbv zeta. simpl in Hsz, Hax.
     assert (I1 : NoDup (ids c)) by apply Hinv.
+    assert (I4 : forall x, In x (ids c) -> x <= m) by apply Hinv.
+    assert (I5 : idn v <= m) by (apply Hinv; simpl; auto).
     assert (Iv : ~ In (idn v) (ids c)).
     { destruct Hinv as [_ [_ [I3 _]]]. intros Hin. apply (I3 _ Hin). simpl; auto. }
     set (F := fv next). set (nc := filter_by_set c F). set (vb := mkb v Ext I64).
@@ -459,28 +528,35 @@ Section Cases.
       apply lookup_snoc_fbs; auto. }
     assert (Hnd' : NoDup (ids (nc ++ [vb]))).
     { rewrite ids_app. apply NoDup_snoc; auto. intros Hin. apply Iv. eapply fbs_ids_incl; eauto. }
-    destruct (IH next (nc ++ [vb]) m) as [N1 N2]; [lia|auto| |].
+    destruct (IH next (nc ++ [vb]) m) as [N1 [N2 [N3 N4]]]; [lia|auto| |].
     { apply inv_gen with (c := c) (s := Literal n v next) (m := m) (pre := [idn v]) (post := []);
         [exact Hinv|lia|auto|simpl; rewrite app_nil_r; auto|].
       intros x Hx. rewrite ids_app in Hx. apply in_app_or in Hx. destruct Hx as [Hx|[<-|[]]].
       - left. eapply fbs_ids_incl; eauto.
       - right. left. simpl; auto. }
-    destruct (lin f next (nc ++ [vb]) m) as [n' m1] eqn:En. simpl in N1, N2.
-    destruct (ctx_eqb c nc) eqn:Eq; cbn [fst snd]; (split; [|lia]).
-    - apply ctx_eqb_eq in Eq. rewrite <- Eq in *. simpl. fin.
-    - apply self_subst_ok; auto.
-      + intros b Hb. apply fbs_In in Hb. tauto.
-      + simpl. fin.
+    destruct (lin f next (nc ++ [vb]) m) as [n' m1] eqn:En. cbn [fst snd] in *.
+    assert (Hbn : binders_ns (Literal n v n') = binders (Literal n v next)) by (simpl; rewrite N3; auto).
+    assert (Hbd : forall x, In x (binders (Literal n v n')) -> x <= m1).
+    { simpl. intros x [<-|Hx]; auto. lia. }
+    destruct (ctx_eqb c nc) eqn:Eq.
+    - unfold post. cbn [fst snd]. split; [|split; [lia|split; auto]].
+      apply ctx_eqb_eq in Eq. rewrite <- Eq in *. simpl. fin.
+    - apply post_wrap; auto.
+      + apply self_subst_ok; auto.
+        * intros b Hb. apply fbs_In in Hb. tauto.
+        * simpl. fin.
+      + intros x Hx. apply fbs_ids_incl in Hx. apply I4 in Hx. lia.
   Qed.
 
   Lemma case_op : forall a o b v next c m,
-    (stmt_size (Op a o b v next) <= Datatypes.S f)%nat ->
+    (stmt_size (Op a o b v next) <= Sf)%nat ->
     ax_check S c (Op a o b v next) = true -> inv c (Op a o b v next) m ->
-    lin_check S c (fst (lin (Datatypes.S f) (Op a o b v next) c m)) = true /\
-    m <= snd (lin (Datatypes.S f) (Op a o b v next) c m).
+    post S c (Op a o b v next) m (lin Sf (Op a o b v next) c m).
   Proof.
     intros a o b v next c m Hsz Hax Hinv. rewrite lin_op. cbv zeta. simpl in Hsz, Hax.
     assert (I1 : NoDup (ids c)) by apply Hinv.
+    assert (I4 : forall x, In x (ids c) -> x <= m) by apply Hinv.
+    assert (I5 : idn v <= m) by (apply Hinv; simpl; auto).
     assert (Iv : ~ In (idn v) (ids c)).
     { destruct Hinv as [_ [_ [I3 _]]]. intros Hin. apply (I3 _ Hin). simpl; auto. }
     apply andb_true_iff in Hax. destruct Hax as [Hax Hn].
@@ -492,85 +568,103 @@ Section Cases.
       apply lookup_snoc_fbs; auto. left. apply add_In. right. apply add_In. auto. }
     assert (Hnd' : NoDup (ids (nc ++ [vb]))).
     { rewrite ids_app. apply NoDup_snoc; auto. intros Hin. apply Iv. eapply fbs_ids_incl; eauto. }
-    destruct (IH next (nc ++ [vb]) m) as [N1 N2]; [lia|auto| |].
+    destruct (IH next (nc ++ [vb]) m) as [N1 [N2 [N3 N4]]]; [lia|auto| |].
     { apply inv_gen with (c := c) (s := Op a o b v next) (m := m) (pre := [idn v]) (post := []);
         [exact Hinv|lia|auto|simpl; rewrite app_nil_r; auto|].
       intros x Hx. rewrite ids_app in Hx. apply in_app_or in Hx. destruct Hx as [Hx|[<-|[]]].
       - left. eapply fbs_ids_incl; eauto.
       - right. left. simpl; auto. }
-    destruct (lin f next (nc ++ [vb]) m) as [n' m1] eqn:En. simpl in N1, N2.
+    destruct (lin f next (nc ++ [vb]) m) as [n' m1] eqn:En. cbn [fst snd] in *.
     assert (Ha' : has_ext nc a = true).
     { unfold has_ext in *. rewrite <- Ha. apply has_ext_lookup. symmetry. apply lookup_fbs_sub; auto.
       apply add_In. right. apply add_In. auto. }
     assert (Hb' : has_ext nc b = true).
     { unfold has_ext in *. rewrite <- Hb. apply has_ext_lookup. symmetry. apply lookup_fbs_sub; auto.
       apply add_In. auto. }
-    destruct (ctx_eqb c nc) eqn:Eq; cbn [fst snd]; (split; [|lia]).
-    - apply ctx_eqb_eq in Eq. rewrite <- Eq in *. simpl. fin.
-    - apply self_subst_ok; auto.
-      + intros b0 Hb0. apply fbs_In in Hb0. tauto.
-      + simpl. fin.
+    assert (Hbn : binders_ns (Op a o b v n') = binders (Op a o b v next)) by (simpl; rewrite N3; auto).
+    assert (Hbd : forall x, In x (binders (Op a o b v n')) -> x <= m1).
+    { simpl. intros x [<-|Hx]; auto. lia. }
+    destruct (ctx_eqb c nc) eqn:Eq.
+    - unfold post. cbn [fst snd]. split; [|split; [lia|split; auto]].
+      apply ctx_eqb_eq in Eq. rewrite <- Eq in *. simpl. fin.
+    - apply post_wrap; auto.
+      + apply self_subst_ok; auto.
+        * intros b0 Hb0. apply fbs_In in Hb0. tauto.
+        * simpl. fin.
+      + intros x Hx. apply fbs_ids_incl in Hx. apply I4 in Hx. lia.
   Qed.
 
   Lemma case_call : forall l args c m,
     ax_check S c (Call l args) = true -> inv c (Call l args) m ->
-    lin_check S c (fst (lin (Datatypes.S f) (Call l args) c m)) = true /\
-    m <= snd (lin (Datatypes.S f) (Call l args) c m).
+    post S c (Call l args) m (lin Sf (Call l args) c m).
   Proof.
     intros l args c m Hax Hinv. rewrite lin_call. simpl in Hax.
     destruct Hinv as [I1 [I2 [I3 [I4 I5]]]].
     destruct (lookup_label S l) as [ps|] eqn:El; try discriminate.
     apply andb_true_iff in Hax. destruct Hax as [Hsig Hargs].
     rewrite forallb_forall in Hargs.
-    destruct (ctx_eqb c args) eqn:Eq; cbn [fst snd].
-    - apply ctx_eqb_eq in Eq. subst. split; [|lia]. simpl. rewrite El. fin.
-    - destruct (freshen args [] m) as [fr m1] eqn:Ef. cbn [fst snd].
-      destruct (freshen_spec _ _ _ _ _ Ef) as [F1 [F2 [F3 [F4 F5]]]].
-      { intros x []. }
-      { intros x Hx. apply In_ids_ex in Hx. destruct Hx as [b [Hb1 Hb2]].
-        apply Hargs in Hb1. apply has_b_In_ids in Hb1. rewrite Hb2 in Hb1. auto. }
+    destruct (ctx_eqb c args) eqn:Eq.
+    - apply ctx_eqb_eq in Eq. subst. unfold post. cbn [fst snd].
+      split; [simpl; rewrite El; fin|]. split; [lia|]. split; [auto|simpl; tauto].
+    - destruct (freshen args [] m) as [fr m1] eqn:Ef.
+      assert (Hb1 : forall x, In x (@nil N) -> x <= m) by (intros x []).
+      assert (Hb2 : forall x, In x (ids args) -> x <= m).
+      { intros x Hx. apply In_ids_ex in Hx. destruct Hx as [b [B1 B2]].
+        apply Hargs in B1. apply has_b_In_ids in B1. rewrite B2 in B1. auto. }
+      destruct (freshen_spec _ _ _ _ _ Ef Hb1 Hb2) as [F1 [F2 [F3 [F4 F5]]]].
       assert (Hkt : same_kt fr args) by (apply same_kt_sym, same_shape_kt; auto).
-      split; [|lia]. apply subst_ok; auto.
-      simpl. rewrite El. fin. eapply sig_match_same_kt; eauto.
+      apply post_wrap; auto.
+      + apply subst_ok; auto. simpl. rewrite El. fin. eapply sig_match_same_kt; eauto.
+      + symmetry. apply same_shape_length; auto.
+      + eapply freshen_bound; eauto.
+      + simpl; tauto.
   Qed.
 
   Lemma case_invoke : forall v tag t args c m,
     ax_check S c (Invoke v tag t args) = true -> inv c (Invoke v tag t args) m ->
-    lin_check S c (fst (lin (Datatypes.S f) (Invoke v tag t args) c m)) = true /\
-    m <= snd (lin (Datatypes.S f) (Invoke v tag t args) c m).
+    post S c (Invoke v tag t args) m (lin Sf (Invoke v tag t args) c m).
   Proof.
     intros v tag t args c m Hax Hinv. rewrite lin_invoke. simpl in Hax.
     destruct Hinv as [I1 [I2 [I3 [I4 I5]]]].
     apply andb_true_iff in Hax. destruct Hax as [Hax Hargs].
     apply andb_true_iff in Hax. destruct Hax as [Hv Hok].
     rewrite forallb_forall in Hargs.
+    assert (Hvm : idn v <= m) by (apply I4; eapply has_In_ids; eauto).
     set (cb := mkb v Cns t).
-    destruct (ctx_eqb c (args ++ [cb])) eqn:Eq; cbn [fst snd].
-    - apply ctx_eqb_eq in Eq. split; [|lia]. rewrite Eq.
-      apply lin_check_invoke_intro; auto. rewrite <- Eq; auto.
-    - destruct (freshen args [idn v] m) as [fr m1] eqn:Ef. cbn [fst snd].
-      destruct (freshen_spec _ _ _ _ _ Ef) as [F1 [F2 [F3 [F4 F5]]]].
-      { intros x [<-|[]]. apply I4. eapply has_In_ids; eauto. }
-      { intros x Hx. apply In_ids_ex in Hx. destruct Hx as [b [Hb1 Hb2]].
-        apply Hargs in Hb1. apply has_b_In_ids in Hb1. rewrite Hb2 in Hb1. auto. }
+    destruct (ctx_eqb c (args ++ [cb])) eqn:Eq.
+    - apply ctx_eqb_eq in Eq. unfold post. cbn [fst snd].
+      split; [|split; [lia|split; [auto|simpl; tauto]]].
+      rewrite Eq. apply lin_check_invoke_intro; auto. rewrite <- Eq; auto.
+    - destruct (freshen args [idn v] m) as [fr m1] eqn:Ef.
+      assert (Hb1 : forall x, In x [idn v] -> x <= m) by (intros x [<-|[]]; auto).
+      assert (Hb2 : forall x, In x (ids args) -> x <= m).
+      { intros x Hx. apply In_ids_ex in Hx. destruct Hx as [b [B1 B2]].
+        apply Hargs in B1. apply has_b_In_ids in B1. rewrite B2 in B1. auto. }
+      destruct (freshen_spec _ _ _ _ _ Ef Hb1 Hb2) as [F1 [F2 [F3 [F4 F5]]]].
       assert (Hkt : same_kt fr args) by (apply same_kt_sym, same_shape_kt; auto).
-      split; [|lia]. apply subst_ok; auto.
-      + apply same_kt_app; auto. apply same_kt_refl.
-      + intros b Hb. apply in_app_or in Hb. destruct Hb as [Hb|[<-|[]]]; auto.
-      + apply lin_check_invoke_intro; auto.
-        * rewrite ids_app. apply NoDup_snoc; auto. intros Hin. apply (F4 _ Hin). simpl; auto.
-        * eapply args_ok_same_kt; eauto.
+      apply post_wrap; auto.
+      + apply subst_ok; auto.
+        * apply same_kt_app; auto. apply same_kt_refl.
+        * intros b Hb. apply in_app_or in Hb. destruct Hb as [Hb|[<-|[]]]; auto.
+        * apply lin_check_invoke_intro; auto.
+          -- rewrite ids_app. apply NoDup_snoc; auto. intros Hin. apply (F4 _ Hin). simpl; auto.
+          -- eapply args_ok_same_kt; eauto.
+      + rewrite !app_length. simpl. f_equal. symmetry. apply same_shape_length; auto.
+      + intros x Hx. rewrite ids_app in Hx. apply in_app_or in Hx. destruct Hx as [Hx|[<-|[]]].
+        * eapply freshen_bound; eauto.
+        * simpl. lia.
+      + simpl; tauto.
   Qed.
 
   Lemma case_let : forall v t tag args next c m,
-    (stmt_size (Let v t tag args next) <= Datatypes.S f)%nat ->
+    (stmt_size (Let v t tag args next) <= Sf)%nat ->
     ax_check S c (Let v t tag args next) = true -> inv c (Let v t tag args next) m ->
-    lin_check S c (fst (lin (Datatypes.S f) (Let v t tag args next) c m)) = true /\
-    m <= snd (lin (Datatypes.S f) (Let v t tag args next) c m).
+    post S c (Let v t tag args next) m (lin Sf (Let v t tag args next) c m).
   Proof.
     intros v t tag args next c m Hsz Hax Hinv. rewrite lin_let. cbv zeta. simpl in Hsz, Hax.
     assert (I1 : NoDup (ids c)) by apply Hinv.
     assert (I4 : forall x, In x (ids c) -> x <= m) by apply Hinv.
+    assert (I5 : idn v <= m) by (apply Hinv; simpl; auto).
     assert (Iv : ~ In (idn v) (ids c)).
     { destruct Hinv as [_ [_ [I3 _]]]. intros Hin. apply (I3 _ Hin). simpl; auto. }
     apply andb_true_iff in Hax. destruct Hax as [Hax Hn].
@@ -590,36 +684,48 @@ Section Cases.
       - left. eapply fbs_ids_incl; eauto.
       - right. left. simpl; auto. }
     destruct (ctx_eqb c (nc ++ args)) eqn:Eq.
-    - destruct (IH next (nc ++ [vb]) m) as [N1 N2]; [lia|auto|apply Hinv'; lia|].
+    - destruct (IH next (nc ++ [vb]) m) as [N1 [N2 [N3 N4]]]; [lia|auto|apply Hinv'; lia|].
       destruct (lin f next (nc ++ [vb]) m) as [n' m1] eqn:En. cbn [fst snd] in *.
-      split; [|lia]. apply ctx_eqb_eq in Eq. rewrite Eq at 1.
-      apply lin_check_let_intro; auto.
-      + rewrite <- Eq; auto.
-      + apply ctx_match_refl.
-    - destruct (freshen args (ids nc) m) as [args' m1] eqn:Ef.
-      destruct (freshen_spec _ _ _ _ _ Ef) as [F1 [F2 [F3 [F4 F5]]]].
-      { intros x Hx. apply I4. eapply fbs_ids_incl; eauto. }
-      { intros x Hx. apply In_ids_ex in Hx. destruct Hx as [b [Hb1 Hb2]].
-        apply Hargs in Hb1. apply has_b_In_ids in Hb1. rewrite Hb2 in Hb1. auto. }
-      assert (Hkt : same_kt args' args) by (apply same_kt_sym, same_shape_kt; auto).
-      destruct (IH next (nc ++ [vb]) m1) as [N1 N2]; [lia|auto|apply Hinv'; lia|].
-      destruct (lin f next (nc ++ [vb]) m1) as [n' m2] eqn:En. cbn [fst snd] in *.
-      split; [|lia]. apply subst_ok; auto.
-      + apply same_kt_app; auto. apply same_kt_refl.
-      + intros b Hb. apply in_app_or in Hb. destruct Hb as [Hb|Hb]; auto.
-        apply has_b_In; auto. apply fbs_In in Hb. tauto.
-      + apply lin_check_let_intro; auto.
-        * rewrite ids_app. apply NoDup_app_iff. repeat split; auto.
-          intros x Hx Hx'. apply (F4 _ Hx'). auto.
+      unfold post. cbn [fst snd]. split; [|split; [lia|split]].
+      + apply ctx_eqb_eq in Eq. rewrite Eq at 1.
+        apply lin_check_let_intro; auto.
+        * rewrite <- Eq; auto.
         * apply ctx_match_refl.
-        * eapply args_ok_same_kt; eauto.
+      + simpl. rewrite N3. auto.
+      + simpl. intros x [<-|Hx]; auto. lia.
+    - destruct (freshen args (ids nc) m) as [args' m1] eqn:Ef.
+      assert (Hb1 : forall x, In x (ids nc) -> x <= m).
+      { intros x Hx. apply I4. eapply fbs_ids_incl; eauto. }
+      assert (Hb2 : forall x, In x (ids args) -> x <= m).
+      { intros x Hx. apply In_ids_ex in Hx. destruct Hx as [b [B1 B2]].
+        apply Hargs in B1. apply has_b_In_ids in B1. rewrite B2 in B1. auto. }
+      destruct (freshen_spec _ _ _ _ _ Ef Hb1 Hb2) as [F1 [F2 [F3 [F4 F5]]]].
+      assert (Hkt : same_kt args' args) by (apply same_kt_sym, same_shape_kt; auto).
+      destruct (IH next (nc ++ [vb]) m1) as [N1 [N2 [N3 N4]]]; [lia|auto|apply Hinv'; lia|].
+      destruct (lin f next (nc ++ [vb]) m1) as [n' m2] eqn:En. cbn [fst snd] in *.
+      apply post_wrap; auto.
+      + apply subst_ok; auto.
+        * apply same_kt_app; auto. apply same_kt_refl.
+        * intros b Hb. apply in_app_or in Hb. destruct Hb as [Hb|Hb]; auto.
+          apply has_b_In; auto. apply fbs_In in Hb. tauto.
+        * apply lin_check_let_intro; auto.
+          -- rewrite ids_app. apply NoDup_app_iff. repeat split; auto.
+             intros x Hx Hx'. apply (F4 _ Hx'). auto.
+          -- apply ctx_match_refl.
+          -- eapply args_ok_same_kt; eauto.
+      + lia.
+      + rewrite !app_length. f_equal. symmetry. apply same_shape_length; auto.
+      + simpl. rewrite N3. auto.
+      + intros x Hx. rewrite ids_app in Hx. apply in_app_or in Hx. destruct Hx as [Hx|Hx].
+        * apply Hb1 in Hx. lia.
+        * assert (x <= m1) by (eapply freshen_bound; eauto). lia.
+      + simpl. intros x [<-|Hx]; auto. lia.
   Qed.
 
   Lemma case_switch : forall v t cls c m,
-    (stmt_size (Switch v t cls) <= Datatypes.S f)%nat ->
+    (stmt_size (Switch v t cls) <= Sf)%nat ->
     ax_check S c (Switch v t cls) = true -> inv c (Switch v t cls) m ->
-    lin_check S c (fst (lin (Datatypes.S f) (Switch v t cls) c m)) = true /\
-    m <= snd (lin (Datatypes.S f) (Switch v t cls) c m).
+    post S c (Switch v t cls) m (lin Sf (Switch v t cls) c m).
   Proof.
     intros v t cls c m Hsz Hax Hinv. rewrite lin_switch. cbv zeta.
     rewrite size_switch in Hsz. rewrite ax_check_switch in Hax.
@@ -628,70 +734,96 @@ Section Cases.
     assert (I3 : forall x, In x (ids c) -> ~ In x (binders_cls cls)).
     { rewrite <- (binders_switch v t). apply Hinv. }
     assert (I4 : forall x, In x (ids c) -> x <= m) by apply Hinv.
+    assert (I5 : forall x, In x (binders_cls cls) -> x <= m).
+    { rewrite <- (binders_switch v t). apply Hinv. }
     apply andb_true_iff in Hax. destruct Hax as [Hax Hcl].
     apply andb_true_iff in Hax. destruct Hax as [Hv Hok].
     unfold ax_clauses in Hcl. rewrite forallb_forall in Hcl.
+    assert (Hvm : idn v <= m) by (apply I4; eapply has_In_ids; eauto).
     set (nc := filter_by_set c (fv_clauses cls)). set (vb := mkb v Prd t).
     assert (Hnc : NoDup (ids nc)) by (apply fbs_NoDup; auto).
-    destruct (lin_cls_spec (lin f) (fun cc => nc ++ cc)
-                (fun cl b' => lin_check S (nc ++ cl_ctx cl) b' = true) cls m) as [H1 H2].
+    assert (Hncm : forall x, In x (ids nc) -> x <= m).
+    { intros x Hx. apply I4. eapply fbs_ids_incl; eauto. }
+    set (Q := fun (cl : clause) (b' : stmt) (a : N) =>
+                lin_check S (nc ++ cl_ctx cl) b' = true /\ binders_ns b' = binders (cl_body cl) /\
+                (forall x, In x (binders b') -> x <= a)).
+    destruct (lin_cls_spec (lin f) (fun cc => nc ++ cc) Q cls m) as [H1 H2].
+    { intros cl b a a' [Q1 [Q2 Q3]] Ha. repeat split; auto. intros x Hx. apply Q3 in Hx. lia. }
     { intros cl m0 Hin Hm0.
       assert (Hd : forall y, In y (ids (cl_ctx cl)) -> ~ In y (ids c)).
       { intros y Hy Hc. apply (I3 _ Hc). eapply binders_cls_In; eauto. apply in_or_app; auto. }
-      apply IH.
+      destruct (IH (cl_body cl) (nc ++ cl_ctx cl) m0) as [P1 [P2 [P3 P4]]].
       - apply size_cls_In in Hin. lia.
       - rewrite <- (Hcl cl Hin). symmetry. apply ax_check_ext. intros x Hx.
         apply lookup_clause_sw; auto.
         destruct (in_dec N.eq_dec x (ids (cl_ctx cl))); auto.
         right. apply fv_clauses_In. exists cl; auto.
-      - destruct (binders_cls_split cls cl Hin) as [pre [post E]].
+      - destruct (binders_cls_split cls cl Hin) as [pre [post0 E]].
         apply inv_gen with (c := c) (s := Switch v t cls) (m := m)
-                           (pre := pre ++ ids (cl_ctx cl)) (post := post); [exact Hinv|lia| | |].
+                           (pre := pre ++ ids (cl_ctx cl)) (post := post0); [exact Hinv|lia| | |].
         + rewrite ids_app. apply NoDup_app_iff. repeat split; auto.
           * eapply binders_cls_ctx_NoDup; eauto.
           * intros x Hx Hx'. apply (Hd x Hx'). eapply fbs_ids_incl; eauto.
         + rewrite binders_switch, E. rewrite <- !app_assoc. auto.
         + intros x Hx. rewrite ids_app in Hx. apply in_app_or in Hx. destruct Hx as [Hx|Hx].
           * left. eapply fbs_ids_incl; eauto.
-          * right. left. apply in_or_app; auto. }
+          * right. left. apply in_or_app; auto.
+      - unfold Q. auto. }
     destruct (lin_cls (lin f) (fun cc => nc ++ cc) cls m) as [cls' m1] eqn:Ec. cbn [fst snd] in *.
-    assert (Hok' : cls_ok S t cls' = true).
-    { rewrite (cls_ok_F2 S t (fun cl b' => lin_check S (nc ++ cl_ctx cl) b' = true) cls cls' H2); auto. }
+    set (Q' := fun cl b' => Q cl b' m1) in *.
+    assert (Hok' : cls_ok S t cls' = true) by (rewrite (cls_ok_F2 S t Q' cls cls' H2); auto).
     assert (Hcl' : lin_clauses_sw S nc cls' = true).
-    { unfold lin_clauses_sw.
-      apply (forallb_F2 _ (fun cl b' => lin_check S (nc ++ cl_ctx cl) b' = true) cls cls' H2).
-      intros cl cl' E Q. rewrite E. auto. }
+    { unfold lin_clauses_sw. apply (forallb_F2 _ Q' cls cls' H2).
+      intros cl cl' E [Q1 _]. rewrite E. auto. }
+    assert (Hbn : forall v', binders_ns (Switch v' t cls') = binders (Switch v t cls)).
+    { intros v'. rewrite binders_ns_switch, binders_switch. apply (bns_cls_F2 Q' cls cls' H2).
+      intros cl b [_ [Q2 _]]; auto. }
+    assert (Hbd : forall v' x, In x (binders (Switch v' t cls')) -> x <= m1).
+    { intros v'. rewrite binders_switch. apply (bound_cls_F2 Q' cls cls' m1 H2).
+      - intros cl b [_ [_ Q3]]; auto.
+      - intros x Hx. apply I5 in Hx. lia. }
     destruct (ctx_eqb c (nc ++ [vb])) eqn:Eq.
-    - cbn [fst snd]. split; [|lia]. apply ctx_eqb_eq in Eq. rewrite Eq at 1.
+    - unfold post. cbn [fst snd]. split; [|split; [lia|split; [apply Hbn|apply Hbd]]].
+      apply ctx_eqb_eq in Eq. rewrite Eq at 1.
       apply lin_check_switch_intro; auto. rewrite <- Eq; auto.
-    - destruct (mem (idn v) (ids nc)) eqn:M; cbn [fst snd]; (split; [|lia]).
-      + apply subst_ok; auto.
-        * apply same_kt_app; [apply same_kt_refl|]. constructor; [simpl; auto|constructor].
-        * intros b Hb. apply in_app_or in Hb. destruct Hb as [Hb|[<-|[]]]; auto.
-          apply has_b_In; auto. apply fbs_In in Hb. tauto.
-        * apply lin_check_switch_intro; auto.
-          rewrite ids_app. apply NoDup_snoc; auto. simpl. intros Hin.
-          apply fbs_ids_incl in Hin. apply I4 in Hin. lia.
-      + apply mem_false in M. apply subst_ok; auto.
-        * apply same_kt_app; [apply same_kt_refl|]. constructor; [simpl; auto|constructor].
-        * intros b Hb. apply in_app_or in Hb. destruct Hb as [Hb|[<-|[]]]; auto.
-          apply has_b_In; auto. apply fbs_In in Hb. tauto.
-        * apply lin_check_switch_intro; auto.
-          rewrite ids_app. apply NoDup_snoc; auto.
+    - assert (Hsrc : forall b, In b (nc ++ [vb]) -> has_b c b = true).
+      { intros b Hb. apply in_app_or in Hb. destruct Hb as [Hb|[<-|[]]]; auto.
+        apply has_b_In; auto. apply fbs_In in Hb. tauto. }
+      destruct (mem (idn v) (ids nc)) eqn:M.
+      + apply post_wrap; [ |lia|rewrite !app_length; auto|apply Hbn| |].
+        * apply subst_ok; auto.
+          -- apply same_kt_app; [apply same_kt_refl|]. constructor; [simpl; auto|constructor].
+          -- apply lin_check_switch_intro; auto.
+             rewrite ids_app. apply NoDup_snoc; auto. simpl. intros Hin.
+             apply Hncm in Hin. lia.
+        * intros x Hx. rewrite ids_app in Hx. apply in_app_or in Hx. destruct Hx as [Hx|[<-|[]]].
+          -- apply Hncm in Hx. lia.
+          -- simpl. lia.
+        * intros x Hx. apply Hbd in Hx. lia.
+      + apply mem_false in M. apply post_wrap; [ |lia|rewrite !app_length; auto|apply Hbn| |apply Hbd].
+        * apply subst_ok; auto.
+          -- apply same_kt_app; [apply same_kt_refl|]. constructor; [simpl; auto|constructor].
+          -- apply lin_check_switch_intro; auto.
+             rewrite ids_app. apply NoDup_snoc; auto.
+        * intros x Hx. rewrite ids_app in Hx. apply in_app_or in Hx. destruct Hx as [Hx|[<-|[]]].
+          -- apply Hncm in Hx. lia.
+          -- simpl. lia.
   Qed.
 
   Lemma case_create : forall v t e cls next c m,
-    (stmt_size (Create v t e cls next) <= Datatypes.S f)%nat ->
+    (stmt_size (Create v t e cls next) <= Sf)%nat ->
     ax_check S c (Create v t e cls next) = true -> inv c (Create v t e cls next) m ->
-    lin_check S c (fst (lin (Datatypes.S f) (Create v t e cls next) c m)) = true /\
-    m <= snd (lin (Datatypes.S f) (Create v t e cls next) c m).
+    post S c (Create v t e cls next) m (lin Sf (Create v t e cls next) c m).
   Proof.
     intros v t e cls next c m Hsz Hax Hinv. rewrite lin_create. cbv zeta.
     rewrite size_create in Hsz. rewrite ax_check_create in Hax.
     pose proof Hinv as [I1 [I2 [I3 [I4 I5]]]]. rewrite binders_create in I2, I3, I5.
     assert (Iv : ~ In (idn v) (ids c)) by (intros Hin; apply (I3 _ Hin); simpl; auto).
+    assert (Ivm : idn v <= m) by (apply I5; simpl; auto).
     assert (I2c : NoDup (binders_cls cls)).
     { inversion I2; subst. match goal with Hx : NoDup (_ ++ _) |- _ => apply NoDup_app_iff in Hx; tauto end. }
+    assert (I5c : forall x, In x (binders_cls cls) -> x <= m).
+    { intros x Hx. apply I5. right. apply in_or_app; auto. }
     apply andb_true_iff in Hax. destruct Hax as [Hax Hn].
     apply andb_true_iff in Hax. destruct Hax as [Hok Hcl].
     unfold ax_clauses in Hcl. rewrite forallb_forall in Hcl.
@@ -710,20 +842,23 @@ Section Cases.
     { intros x Hx. unfold cc. rewrite <- lookup_fbs_sub by auto.
       apply lookup_b_same_set; auto. intros b. symmetry. apply reorder_In. }
     (* the clauses *)
-    destruct (lin_cls_spec (lin f) (fun x => x ++ cc)
-                (fun cl b' => lin_check S (cl_ctx cl ++ cc) b' = true) cls m) as [H1 H2].
+    set (Q := fun (cl : clause) (b' : stmt) (a : N) =>
+                lin_check S (cl_ctx cl ++ cc) b' = true /\ binders_ns b' = binders (cl_body cl) /\
+                (forall x, In x (binders b') -> x <= a)).
+    destruct (lin_cls_spec (lin f) (fun x => x ++ cc) Q cls m) as [H1 H2].
+    { intros cl b a a' [Q1 [Q2 Q3]] Ha. repeat split; auto. intros x Hx. apply Q3 in Hx. lia. }
     { intros cl m0 Hin Hm0.
       assert (Hd : forall y, In y (ids (cl_ctx cl)) -> ~ In y (ids c)).
       { intros y Hy Hc. apply (I3 _ Hc). right. apply in_or_app. left.
         eapply binders_cls_In; eauto. apply in_or_app; auto. }
-      apply IH.
+      destruct (IH (cl_body cl) (cl_ctx cl ++ cc) m0) as [P1 [P2 [P3 P4]]].
       - apply size_cls_In in Hin. lia.
       - rewrite <- (Hcl cl Hin). symmetry. apply ax_check_ext. intros x Hx.
         rewrite !lookup_b_app. destruct (lookup_b (cl_ctx cl) x) eqn:E; auto.
         apply Hcc_look. apply fv_clauses_In. exists cl. repeat split; auto. apply lookup_b_None; auto.
-      - destruct (binders_cls_split cls cl Hin) as [pre [post E]].
+      - destruct (binders_cls_split cls cl Hin) as [pre [post0 E]].
         apply inv_gen with (c := c) (s := Create v t e cls next) (m := m)
-                           (pre := idn v :: pre ++ ids (cl_ctx cl)) (post := post ++ binders next);
+                           (pre := idn v :: pre ++ ids (cl_ctx cl)) (post := post0 ++ binders next);
           [exact Hinv|lia| | |].
         + rewrite ids_app. apply NoDup_app_iff. repeat split; auto.
           * eapply binders_cls_ctx_NoDup; eauto.
@@ -731,21 +866,27 @@ Section Cases.
         + rewrite binders_create, E. simpl. rewrite <- !app_assoc. auto.
         + intros x Hx. rewrite ids_app in Hx. apply in_app_or in Hx. destruct Hx as [Hx|Hx].
           * right. left. right. apply in_or_app; auto.
-          * left. auto. }
+          * left. auto.
+      - unfold Q. auto. }
     destruct (lin_cls (lin f) (fun x => x ++ cc) cls m) as [cls' m1] eqn:Ec. cbn [fst snd] in *.
-    assert (Hok' : cls_ok S t cls' = true).
-    { rewrite (cls_ok_F2 S t (fun cl b' => lin_check S (cl_ctx cl ++ cc) b' = true) cls cls' H2); auto. }
+    set (Q' := fun cl b' => Q cl b' m1) in *.
+    assert (Hok' : cls_ok S t cls' = true) by (rewrite (cls_ok_F2 S t Q' cls cls' H2); auto).
     assert (Hcl' : lin_clauses_cr S cc cls' = true).
-    { unfold lin_clauses_cr.
-      apply (forallb_F2 _ (fun cl b' => lin_check S (cl_ctx cl ++ cc) b' = true) cls cls' H2).
-      intros cl cl' E Q. rewrite E. auto. }
+    { unfold lin_clauses_cr. apply (forallb_F2 _ Q' cls cls' H2).
+      intros cl cl' E [Q1 _]. rewrite E. auto. }
+    assert (Hbnc : binders_ns_cls cls' = binders_cls cls).
+    { apply (bns_cls_F2 Q' cls cls' H2). intros cl b [_ [Q2 _]]; auto. }
+    assert (Hbdc : forall x, In x (binders_cls cls') -> x <= m1).
+    { apply (bound_cls_F2 Q' cls cls' m1 H2).
+      - intros cl b [_ [_ Q3]]; auto.
+      - intros x Hx. apply I5c in Hx. lia. }
     destruct (ctx_eqb c (cn ++ cc)) eqn:Eq.
     - (* the context is already right *)
       assert (Hax' : ax_check S (cn ++ [vb]) next = true).
       { rewrite <- Hn. symmetry. apply ax_check_ext. intros x Hx. apply lookup_snoc_fbs; auto. }
       assert (Hnd' : NoDup (ids (cn ++ [vb]))).
       { rewrite ids_app. apply NoDup_snoc; auto. intros Hin. apply Iv. eapply fbs_ids_incl; eauto. }
-      destruct (IH next (cn ++ [vb]) m1) as [N1 N2]; [lia|auto| |].
+      destruct (IH next (cn ++ [vb]) m1) as [N1 [N2 [N3 N4]]]; [lia|auto| |].
       { apply inv_gen with (c := c) (s := Create v t e cls next) (m := m)
                            (pre := idn v :: binders_cls cls) (post := []); [exact Hinv|lia|auto| |].
         - rewrite binders_create. simpl. rewrite app_nil_r. auto.
@@ -753,20 +894,25 @@ Section Cases.
           + left. eapply fbs_ids_incl; eauto.
           + right. left. simpl; auto. }
       destruct (lin f next (cn ++ [vb]) m1) as [n' m2] eqn:En. cbn [fst snd] in *.
-      split; [|lia]. apply ctx_eqb_eq in Eq. rewrite Eq at 1.
-      apply lin_check_create_intro; auto. rewrite <- Eq; auto.
+      unfold post. cbn [fst snd]. split; [|split; [lia|split]].
+      + apply ctx_eqb_eq in Eq. rewrite Eq at 1.
+        apply lin_check_create_intro; auto. rewrite <- Eq; auto.
+      + rewrite binders_ns_create, binders_create, Hbnc, N3. auto.
+      + rewrite binders_create. intros x [<-|Hx]; [lia|].
+        apply in_app_or in Hx. destruct Hx as [Hx|Hx]; auto. apply Hbdc in Hx. lia.
     - (* rearrangement, renaming of next *)
       destruct (freshen cn (ids cc) m1) as [cnf m2] eqn:Ef.
-      destruct (freshen_spec _ _ _ _ _ Ef) as [F1 [F2 [F3 [F4 F5]]]].
+      assert (Hb1 : forall x, In x (ids cc) -> x <= m1).
       { intros x Hx. apply Hcc_ids in Hx. apply I4 in Hx. lia. }
+      assert (Hb2 : forall x, In x (ids cn) -> x <= m1).
       { intros x Hx. apply fbs_ids_incl in Hx. apply I4 in Hx. lia. }
+      destruct (freshen_spec _ _ _ _ _ Ef Hb1 Hb2) as [F1 [F2 [F3 [F4 F5]]]].
       set (su := combine (ids cn) (vars cnf)).
       assert (Hkt : same_kt cnf cn) by (apply same_kt_sym, same_shape_kt; auto).
       assert (Hcnf_src : forall x, In x (ids cnf) -> In x (ids c) \/ (m1 < x /\ x <= m2)).
       { intros x Hx. destruct (F5 x Hx) as [H|H]; auto. left. eapply fbs_ids_incl; eauto. }
       assert (Hv_cnf : ~ In (idn v) (ids cnf)).
-      { intros Hin. destruct (Hcnf_src _ Hin) as [H|H]; [tauto|].
-        assert (idn v <= m) by (apply I5; simpl; auto). lia. }
+      { intros Hin. destruct (Hcnf_src _ Hin) as [H|H]; [tauto|]. lia. }
       assert (Hns : has_subst next = false) by (eapply ax_check_no_subst; eauto).
       assert (Hnd' : NoDup (ids (cnf ++ [vb]))).
       { rewrite ids_app. apply NoDup_snoc; auto. }
@@ -793,7 +939,7 @@ Section Cases.
             destruct (ren_lookup cn cnf F2 Hcn b Hbcn) as [b' [B1 [B2 [B3 B4]]]].
             exists b'. fold su in B2. rewrite B2. split; auto.
             rewrite lookup_b_app. rewrite (lookup_b_In cnf b' F3 B1). auto. }
-      destruct (IH (sub_s su next) (cnf ++ [vb]) m2) as [N1 N2]; [rewrite size_sub; lia|auto| |].
+      destruct (IH (sub_s su next) (cnf ++ [vb]) m2) as [N1 [N2 [N3 N4]]]; [rewrite size_sub; lia|auto| |].
       { apply inv_gen with (c := c) (s := Create v t e cls next) (m := m)
                            (pre := idn v :: binders_cls cls) (post := []); [exact Hinv|lia|auto| |].
         - rewrite binders_create, binders_sub by auto. simpl. rewrite app_nil_r. auto.
@@ -801,12 +947,22 @@ Section Cases.
           + destruct (Hcnf_src _ Hx) as [H|H]; auto. right. right. right. lia.
           + right. left. simpl; auto. }
       destruct (lin f (sub_s su next) (cnf ++ [vb]) m2) as [n' m3] eqn:En. cbn [fst snd] in *.
-      split; [|lia]. apply subst_ok; auto.
-      + apply same_kt_app; auto. apply same_kt_refl.
-      + intros b Hb. apply has_b_In; auto. apply in_app_or in Hb. destruct Hb; auto.
-      + apply lin_check_create_intro; auto.
-        rewrite ids_app. apply NoDup_app_iff. repeat split; auto;
-          try (intros x Hx Hx'; apply (F4 _ Hx); auto).
+      rewrite binders_sub in N3 by auto.
+      apply post_wrap; auto.
+      + apply subst_ok; auto.
+        * apply same_kt_app; auto. apply same_kt_refl.
+        * intros b Hb. apply has_b_In; auto. apply in_app_or in Hb. destruct Hb; auto.
+        * apply lin_check_create_intro; auto.
+          rewrite ids_app. apply NoDup_app_iff. repeat split; auto;
+            try (intros x Hx Hx'; apply (F4 _ Hx); auto).
+      + lia.
+      + rewrite !app_length. f_equal. symmetry. apply same_shape_length; auto.
+      + rewrite binders_ns_create, binders_create, Hbnc, N3. auto.
+      + intros x Hx. rewrite ids_app in Hx. apply in_app_or in Hx. destruct Hx as [Hx|Hx].
+        * assert (x <= m2) by (eapply freshen_bound; eauto). lia.
+        * apply Hb1 in Hx. lia.
+      + rewrite binders_create. intros x [<-|Hx]; [lia|].
+        apply in_app_or in Hx. destruct Hx as [Hx|Hx]; auto. apply Hbdc in Hx. lia.
   Qed.
 End Cases.
 
@@ -844,42 +1000,66 @@ Proof.
   rewrite forallb_forall in *. intros x Hx. apply H0 in Hx. apply N.leb_le in Hx. apply N.leb_le. lia.
 Qed.
 
-Theorem linearize_exact_def : forall S d m,
-  def_ok S m d = true ->
-  lin_check_def S (fst (lin_def d m)) = true /\ m <= snd (lin_def d m) /\
-  dname (fst (lin_def d m)) = dname d /\ dctx (fst (lin_def d m)) = dctx d.
+(* per definition: exact environments, unique binders kept, every bound id below the new max_id *)
+Definition def_post (S : sigs) (d : def) (m : N) (r : def * N) : Prop :=
+  lin_check_def S (fst r) = true /\ m <= snd r /\
+  dname (fst r) = dname d /\ dctx (fst r) = dctx d /\
+  binders_ns (dbody (fst r)) = binders (dbody d) /\
+  (forall x, In x (binders (dbody (fst r))) -> x <= snd r).
+
+Theorem linearize_def_spec : forall S d m, def_ok S m d = true -> def_post S d m (lin_def d m).
 Proof.
   intros S d m H. apply def_ok_inv in H. destruct H as [Hax Hinv].
-  unfold lin_def, lin_check_def.
-  destruct (lin_good S (stmt_size (dbody d)) (dbody d) (dctx d) m) as [H1 H2]; auto.
-  destruct (lin (stmt_size (dbody d)) (dbody d) (dctx d) m) as [b m'] eqn:E. simpl in *. auto.
+  unfold lin_def, lin_check_def, def_post.
+  destruct (lin_good S (stmt_size (dbody d)) (dbody d) (dctx d) m) as [H1 [H2 [H3 H4]]]; auto.
+  destruct (lin (stmt_size (dbody d)) (dbody d) (dctx d) m) as [b m'] eqn:E. simpl in *.
+  repeat split; auto.
 Qed.
+
+Lemma Forall2_impl' : forall {A B} (P Q : A -> B -> Prop) l l',
+  (forall a b, P a b -> Q a b) -> Forall2 P l l' -> Forall2 Q l l'.
+Proof. intros A B P Q l l' H F; induction F; constructor; auto. Qed.
 
 Definition labels_of (ds : list def) : list (ident * ctx) := map (fun d => (dname d, dctx d)) ds.
 
 Lemma lin_defs_spec : forall S ds m,
   (forall d, In d ds -> def_ok S m d = true) ->
   m <= snd (lin_defs ds m) /\
-  forallb (lin_check_def S) (fst (lin_defs ds m)) = true /\
-  labels_of (fst (lin_defs ds m)) = labels_of ds.
+  Forall2 (fun d d' => exists m0 m1, m <= m0 /\ m1 <= snd (lin_defs ds m) /\ def_post S d m0 (d', m1))
+          ds (fst (lin_defs ds m)).
 Proof.
   intros S ds; induction ds as [|d r IH]; intros m H; simpl.
-  - repeat split; auto. lia.
-  - destruct (linearize_exact_def S d m) as [D1 [D2 [D3 D4]]]; [apply H; simpl; auto|].
-    destruct (lin_def d m) as [d' m1] eqn:E. simpl in *.
-    destruct (IH m1) as [R1 [R2 R3]].
-    { intros d0 Hd0. eapply def_ok_mono; [|apply H; auto]. auto. }
+  - split; [lia|constructor].
+  - pose proof (linearize_def_spec S d m (H d (or_introl eq_refl))) as D.
+    destruct (lin_def d m) as [d' m1] eqn:E.
+    assert (Hm1 : m <= m1) by (destruct D as [_ [D2 _]]; auto).
+    destruct (IH m1) as [R1 R2].
+    { intros d0 Hd0. eapply def_ok_mono; [|apply H; simpl; auto]. auto. }
     destruct (lin_defs r m1) as [r' m2] eqn:E'. simpl in *.
-    split; [lia|]. split; [rewrite D1, R2; auto|]. rewrite D3, D4, R3. auto.
+    split; [lia|]. constructor.
+    + exists m, m1. split; [lia|]. split; [lia|]. exact D.
+    + eapply Forall2_impl'; [|exact R2]. intros a b [m0 [m3 [A1 [A2 A3]]]].
+      exists m0, m3. split; [lia|]. split; [lia|]. exact A3.
 Qed.
+
+Lemma lin_defs_labels : forall S ds ds' (m' : N),
+  Forall2 (fun d d' => exists m0 m1, def_post S d m0 (d', m1)) ds ds' -> labels_of ds' = labels_of ds.
+Proof.
+  intros S ds ds' m' H; induction H as [|d d' ds ds' [m0 [m1 D]] H IH]; simpl; auto.
+  destruct D as [_ [_ [D3 [D4 _]]]]. simpl in *. rewrite D3, D4, IH. auto.
+Qed.
+
+Lemma prog_ok_defs : forall p, prog_ok p = true -> forall d, In d (pdefs p) -> def_ok (sigs_of p) (pmax p) d = true.
+Proof. unfold prog_ok; intros p H. rewrite forallb_forall in H. auto. Qed.
 
 Lemma sigs_of_linearize : forall p, prog_ok p = true -> sigs_of (linearize p) = sigs_of p.
 Proof.
   intros p H. unfold linearize, sigs_of.
-  destruct (lin_defs_spec (sigs_of p) (pdefs p) (pmax p)) as [H1 [H2 H3]].
-  { intros d Hd. unfold prog_ok in H. rewrite forallb_forall in H. auto. }
+  destruct (lin_defs_spec (sigs_of p) (pdefs p) (pmax p) (prog_ok_defs p H)) as [H1 H2].
   destruct (lin_defs (pdefs p) (pmax p)) as [ds m] eqn:E. simpl in *.
-  unfold labels_of in H3. rewrite H3. auto.
+  fold (labels_of ds). fold (labels_of (pdefs p)).
+  rewrite (lin_defs_labels (sigs_of p) (pdefs p) ds m); auto.
+  eapply Forall2_impl'; [|exact H2]. intros a b [m0 [m1 [_ [_ A]]]]. eauto.
 Qed.
 
 (* C05, exact environments: every definition of the linearized program passes the checker of the
@@ -888,9 +1068,11 @@ Theorem linearize_exact : forall p, prog_ok p = true -> lin_check_prog (lineariz
 Proof.
   intros p H. unfold lin_check_prog. rewrite sigs_of_linearize by auto.
   unfold linearize.
-  destruct (lin_defs_spec (sigs_of p) (pdefs p) (pmax p)) as [H1 [H2 H3]].
-  { intros d Hd. unfold prog_ok in H. rewrite forallb_forall in H. auto. }
-  destruct (lin_defs (pdefs p) (pmax p)) as [ds m] eqn:E. simpl in *. auto.
+  destruct (lin_defs_spec (sigs_of p) (pdefs p) (pmax p) (prog_ok_defs p H)) as [H1 H2].
+  destruct (lin_defs (pdefs p) (pmax p)) as [ds m] eqn:E. simpl in *.
+  apply forallb_forall. intros d' Hd'.
+  clear E. induction H2 as [|d d2 ds0 ds' [m0 [m1 [_ [_ D]]]] H2 IH]; simpl in *; [tauto|].
+  destruct Hd' as [<-|Hd']; auto. apply D.
 Qed.
 
 Theorem linearize_exact_wt : forall p, prog_ok p = true ->
@@ -901,10 +1083,91 @@ Proof.
   apply lin_check_sound. apply H; auto.
 Qed.
 
-Theorem linearize_max_id_mono : forall p, prog_ok p = true -> pmax p <= pmax (linearize p).
+(* C05, unique binders: definition by definition the binders (other than the targets of the
+   inserted substitutions) are literally those of the input, hence still pairwise distinct and
+   distinct from the parameters; every id bound anywhere in the output - inserted substitutions
+   included - is at most the new max_id, which is at least the old one *)
+Theorem linearize_unique : forall p, prog_ok p = true ->
+  pmax p <= pmax (linearize p) /\
+  Forall2 (fun d d' =>
+             dname d' = dname d /\ dctx d' = dctx d /\
+             binders_ns (dbody d') = binders (dbody d) /\
+             NoDup (ids (dctx d') ++ binders_ns (dbody d')) /\
+             (forall x, In x (binders (dbody d')) -> x <= pmax (linearize p)))
+          (pdefs p) (pdefs (linearize p)).
 Proof.
   intros p H. unfold linearize.
-  destruct (lin_defs_spec (sigs_of p) (pdefs p) (pmax p)) as [H1 _].
-  { intros d Hd. unfold prog_ok in H. rewrite forallb_forall in H. auto. }
-  destruct (lin_defs (pdefs p) (pmax p)) as [ds m] eqn:E. simpl in *. auto.
+  destruct (lin_defs_spec (sigs_of p) (pdefs p) (pmax p) (prog_ok_defs p H)) as [H1 H2].
+  pose proof (prog_ok_defs p H) as Hd.
+  destruct (lin_defs (pdefs p) (pmax p)) as [ds m] eqn:E. simpl in *. split; auto.
+  clear E. induction H2 as [|d d' ds0 ds' [m0 [m1 [A1 [A2 D]]]] H2 IH]; constructor.
+  - destruct D as [_ [_ [D3 [D4 [D5 D6]]]]]. simpl in *.
+    repeat split; auto.
+    + rewrite D4, D5. specialize (Hd d (or_introl eq_refl)). unfold def_ok in Hd. btrue.
+      apply nodupb_NoDup; auto.
+    + intros x Hx. apply D6 in Hx. lia.
+  - apply IH. intros d0 Hd0. apply Hd. simpl; auto.
+Qed.
+
+(* ---------- operands of op / ifc / print / exit stay in the environment passed on ---------- *)
+Lemma has_snoc : forall c vb x k t, has c x k t = true -> has (c ++ [vb]) x k t = true.
+Proof.
+  unfold has; intros c vb x k t H. rewrite lookup_b_app.
+  destruct (lookup_b c (idn x)); auto. discriminate.
+Qed.
+Definition ops_clauses_sw (c0 : ctx) (cls : list clause) : bool :=
+  forallb (fun cl => ops_kept (c0 ++ cl_ctx cl) (cl_body cl)) cls.
+Definition ops_clauses_cr (env : ctx) (cls : list clause) : bool :=
+  forallb (fun cl => ops_kept (cl_ctx cl ++ env) (cl_body cl)) cls.
+Lemma ops_kept_switch : forall c v t cls,
+  ops_kept c (Switch v t cls) =
+  match split_lastn 1 c with Some (c0, _) => ops_clauses_sw c0 cls | None => false end.
+Proof.
+  intros; simpl. destruct (split_lastn 1 c) as [[c0 tl]|]; auto.
+  induction cls as [|[[x cc] b] r IH]; simpl; auto.
+  unfold cl_ctx, cl_body; simpl. rewrite IH; auto.
+Qed.
+Lemma ops_kept_create : forall c v t env cls next,
+  ops_kept c (Create v t (Some env) cls next) =
+  match split_lastn (length env) c with
+  | Some (c0, _) => ops_clauses_cr env cls && ops_kept (c0 ++ [mkb v Cns t]) next
+  | None => false end.
+Proof.
+  intros; simpl. destruct (split_lastn (length env) c) as [[c0 tl]|]; auto. f_equal.
+  induction cls as [|[[x cc] b] r IH]; simpl; auto.
+  unfold cl_ctx, cl_body; simpl. rewrite IH; auto.
+Qed.
+
+Theorem lin_check_ops_kept : forall S s c, lin_check S c s = true -> ops_kept c s = true.
+Proof.
+  intros S s; induction s using stmt_ind2; intros c Hc.
+  - simpl in *. btrue. auto.
+  - reflexivity.
+  - simpl in *. btrue. destruct (split_lastn (length args) c) as [[c0 tl]|]; try discriminate. btrue. auto.
+  - rewrite lin_check_switch in Hc. rewrite ops_kept_switch. btrue.
+    destruct (split_lastn 1 c) as [[c0 [|b [|]]]|]; try discriminate. btrue.
+    match goal with Hl : lin_clauses_sw _ _ _ = true |- _ =>
+      unfold lin_clauses_sw in Hl; rewrite forallb_forall in Hl; rename Hl into HL end.
+    unfold ops_clauses_sw. apply forallb_forall. intros cl Hcl.
+    rewrite Forall_forall in H. apply H; auto.
+  - destruct env as [env|]; [|simpl in Hc; btrue; discriminate].
+    rewrite lin_check_create in Hc. rewrite ops_kept_create. btrue.
+    destruct (split_lastn (length env) c) as [[c0 tl]|]; try discriminate. btrue; auto.
+    match goal with Hl : lin_clauses_cr _ _ _ = true |- _ =>
+      unfold lin_clauses_cr in Hl; rewrite forallb_forall in Hl; rename Hl into HL end.
+    unfold ops_clauses_cr. apply forallb_forall. intros cl Hcl.
+    rewrite Forall_forall in H. apply H; auto.
+  - reflexivity.
+  - simpl in *. btrue. auto.
+  - simpl in *. btrue; auto; apply has_snoc; auto.
+  - simpl in *. btrue; auto.
+  - simpl in *. btrue; auto.
+  - simpl in *. btrue; auto.
+Qed.
+
+Theorem linearize_keeps_operands : forall p, prog_ok p = true ->
+  forallb (fun d => ops_kept (dctx d) (dbody d)) (pdefs (linearize p)) = true.
+Proof.
+  intros p H. apply linearize_exact in H. unfold lin_check_prog in H.
+  rewrite forallb_forall in *. intros d Hd. eapply lin_check_ops_kept. apply H; auto.
 Qed.
